@@ -195,6 +195,13 @@ static void fill_buf(rng_t* r, const bufspec_t* b, void* p, size_t bytes) {
       static const size_t PER[] = {2, 3, 4, 8};
       const size_t per = PER[(t >> 8) & 3];
       for (size_t i = per; i < nw; i++) w[i] = w[i - per];
+    } else if (nw >= 2 && (t & 7) == 3 && b->fill != F_U32A) {
+      // signed zeros: a third of the elements +0.0 or -0.0
+      const uint64_t nz = 0x8000000000000000ull;
+      for (size_t i = 0; i < nw; i++) {
+        const uint64_t u = mix64(t + i);
+        if (u % 3 == 0) w[i] = (u & 8) ? nz : 0;
+      }
     } else if (nw >= 2 && (t & 7) == 2 && b->fill != F_U32A) {
       // complex data lying on one axis (purely real / purely imaginary numbers, exact +0.0 on the other), in each of the
       // three layouts: split halves (reim), blocks of 4+4 (reim4), interleaved (cplx)
@@ -494,6 +501,8 @@ IPV(ip_auto, vec_znx_automorphism(M, pl->s[0] | 1, x, rs, sl, x, as, sl))
 IPV(ip_normalize, vec_znx_normalize_base2k(M, pl->u[2], x, rs < as ? rs : as, sl, x, as, sl, p[2]))
 IPV(ip_add, vec_znx_add(M, x, rs, sl, x, as, sl, p[1], pl->b[1].size, pl->b[1].sl))
 IPV(ip_sub_b, vec_znx_sub(M, x, rs, sl, p[1], pl->b[1].size, pl->b[1].sl, x, as, sl))
+IPV(ip_add_b, vec_znx_add(M, x, rs, sl, p[1], pl->b[1].size, pl->b[1].sl, x, as, sl))
+IPV(ip_sub_a, vec_znx_sub(M, x, rs, sl, x, as, sl, p[1], pl->b[1].size, pl->b[1].sl))
 static void plan_inplace_big(opplan_t* pl, rng_t* r, const env_t* e) {
   uint64_t rs = rsz(r, 3), as = rsz(r, 3), bs = rsz(r, 3);
   pl->u[0] = rs; pl->u[1] = as; pl->u[2] = bs;
@@ -506,6 +515,8 @@ static void plan_inplace_big(opplan_t* pl, rng_t* r, const env_t* e) {
 #define IPB(NAME, EXPR) static void call_##NAME(const opplan_t* pl, void* const p[], const env_t* e) { const MODULE* M = e->fft64; uint64_t rs = pl->u[0], as = pl->u[1], bs = pl->u[2]; (void)bs; EXPR; }
 IPB(ipb_add, vec_znx_big_add(M, p[0], rs, p[0], as, p[1], bs))
 IPB(ipb_sub, vec_znx_big_sub(M, p[0], rs, p[1], bs, p[0], as))
+IPB(ipb_add_b, vec_znx_big_add(M, p[0], rs, p[1], bs, p[0], as))
+IPB(ipb_sub_a, vec_znx_big_sub(M, p[0], rs, p[0], as, p[1], bs))
 IPB(ipb_rotate, vec_znx_big_rotate(M, pl->s[0], p[0], rs, p[0], as))
 IPB(ipb_auto, vec_znx_big_automorphism(M, pl->s[0] | 1, p[0], rs, p[0], as))
 static void plan_inplace_idft(opplan_t* pl, rng_t* r, const env_t* e) {
@@ -1144,6 +1155,8 @@ const opdef_t OPS[] = {
     {"vec_znx_normalize_base2k(res==a)", OPF_FFT64, plan_inplace_norm, call_ip_normalize},
     {"vec_znx_add(res==a)", OPF_FFT64, plan_inplace_vec, call_ip_add}, {"vec_znx_sub(res==b)", OPF_FFT64, plan_inplace_vec, call_ip_sub_b},
     {"vec_znx_big_add(res==a)", OPF_FFT64, plan_inplace_big, call_ipb_add}, {"vec_znx_big_sub(res==b)", OPF_FFT64, plan_inplace_big, call_ipb_sub},
+    {"vec_znx_add(res==b)", OPF_FFT64, plan_inplace_vec, call_ip_add_b}, {"vec_znx_sub(res==a)", OPF_FFT64, plan_inplace_vec, call_ip_sub_a},
+    {"vec_znx_big_add(res==b)", OPF_FFT64, plan_inplace_big, call_ipb_add_b}, {"vec_znx_big_sub(res==a)", OPF_FFT64, plan_inplace_big, call_ipb_sub_a},
     {"vec_znx_big_rotate(res==a)", OPF_FFT64, plan_inplace_big, call_ipb_rotate}, {"vec_znx_big_automorphism(res==a)", OPF_FFT64, plan_inplace_big, call_ipb_auto},
     {"vec_znx_idft(res==a_dft)", OPF_FFT64, plan_inplace_idft, call_ip_idft},
     {"reim_fftvec_mul(r==a)", OPF_TABLE, plan_inplace_mul, call_ip_reim_mul}, {"reim_fftvec_addmul(r==b)", OPF_TABLE, plan_inplace_mul, call_ip_reim_addmul},
